@@ -171,8 +171,9 @@ Definition make_app_responses (d : doc) (act : uaction) : list app_response :=
 
 (* ---------- helpers ---------- *)
 Definition report (m : metric) : M unit := emit (AMetric m).
-Definition yield_state (s : state) : M unit := emit (AEvent (EvState s)).
-Definition yield_ (e : sm_event) : M unit := emit (AEvent e).
+Definition yield_ (e : sm_event) : M unit :=
+  emit (AEvent e) ;;; after_event (match e with EvResult _ => true | _ => false end).
+Definition yield_state (s : state) : M unit := yield_ (EvState s).
 
 Definition persist_data (m : sm) : M unit :=
   ctx_persist (m_sched m) (m_ps m) ;;;
@@ -607,12 +608,21 @@ Fixpoint outer_select (stim : list stimulus) (pending : list role) (ctl : N)
       | None => outer_select r pending ctl
       end
   | Control src :: r => Some (Some (src, ctl), r, (ctl + 1)%N)
+  | DropHandles :: r => outer_select r pending ctl
   end.
 
-Definition do_outer_select (pending : list role) : M (option (isource * N)) := fun e =>
-  match outer_select (e_stim e) pending (e_ctl e) with
-  | None => (None, set_stim e [] (e_ctl e))
-  | Some (x, r, c) => (Some x, set_stim e r c)
+Definition do_outer_select (pending : list role) : M (option (isource * N)) :=
+  q <- pop_queued ;;
+  match q with
+  | Some (id, src) => ret (Some (src, id))           (* a request already sent is seen first *)
+  | None =>
+      fun e =>
+        match outer_select (e_stim e) pending (e_ctl e) with
+        | None => (None, set_stim e [] (e_ctl e))
+        | Some (None, r, c) => (Some None, set_stim e r c)
+        | Some (Some (src, id), r, c) =>
+            (Some (Some (src, id)), upd_trace (set_stim e r c) (ARequest id src :: e_trace e))
+        end
   end.
 
 Definition ask_reboot_allowed (src : isource) : M bool :=
@@ -621,10 +631,23 @@ Definition ask_reboot_allowed (src : isource) : M bool :=
 Definition has_ping_roles (p : list role) : bool := existsb (fun r => match r with RReboot => false | _ => true end) p.
 
 (* state_machine.rs:449-510 wait_for_reboot; one loop turn per stimulus *)
+Definition handle_in_reboot (id : N) (sc : isource) : M bool :=   (* true = leave the loop and reboot *)
+  emit (AReply id AlreadyRunning) ;;;
+  match sc with
+  | OnDemand => ask_reboot_allowed OnDemand
+  | ScheduledTask => ret false
+  end.
+
 Fixpoint reboot_loop (fuel : nat) (src : isource) (pending : list role) (m : sm) : M sm :=
   match fuel with
   | O => halt
   | S f =>
+      q <- pop_queued ;;
+      match q with
+      | Some (id, sc) =>
+          go <- handle_in_reboot id sc ;;
+          if go then ret m else reboot_loop f (match sc with OnDemand => OnDemand | ScheduledTask => src end) pending m
+      | None =>
       s <- pop_stim ;;
       match s with
       | Fire i =>
@@ -646,12 +669,11 @@ Fixpoint reboot_loop (fuel : nat) (src : isource) (pending : list role) (m : sm)
           end
       | Control sc =>
           id <- next_ctl ;;
-          emit (AReply id AlreadyRunning) ;;;
-          match sc with
-          | OnDemand => ok <- ask_reboot_allowed OnDemand ;;
-                        if ok then ret m else reboot_loop f OnDemand pending m
-          | ScheduledTask => reboot_loop f src pending m
-          end
+          emit (ARequest id sc) ;;;
+          go <- handle_in_reboot id sc ;;
+          if go then ret m else reboot_loop f (match sc with OnDemand => OnDemand | ScheduledTask => src end) pending m
+      | DropHandles => reboot_loop f src pending m
+      end
       end
   end.
 
@@ -697,7 +719,11 @@ Definition run_iteration (fuel : nat) (finish : option Z) (start_mono : Z) (shou
       ret (m, sr)
   | DOk p | DOkDeferred p =>
       (match sel with Some (_, id) => emit (AReply id Started) | None => ret tt end) ;;;
+      enter_check ;;;
       r <- start_update_check fuel p m ;;
+      set_incheck false ;;;
+      upg <- take_upgrade ;;
+      let src := if upg then OnDemand else src in
       let '(m, rb) := r in
       m <- (match rb with
             | RebootNeeded _ => yield_state WaitingForReboot ;;; wait_for_reboot fuel src m
@@ -736,7 +762,7 @@ Inductive entry_point := EStart | EOneshot.
 Definition run_case (ep : entry_point) (cfg : config) (url : urlparts) (cup : option N) (apps : list app) (e : env)
   : list action :=
   let m := build cfg url cup apps (e_store e) in
-  let n := S (length (e_stim e)) in
-  let fuel := (4 + length (e_stim e))%nat in
+  let n := S (length (e_stim e) + length (c_inject (e_cs e))) in
+  let fuel := (4 + length (e_stim e) + length (c_inject (e_cs e)))%nat in
   let '(_, e') := match ep with EStart => run n fuel m e | EOneshot => oneshot fuel m e end in
   rev (e_trace e').
